@@ -108,6 +108,8 @@ type Obligation struct {
 	Bytes   int
 	// MustFail marks vacuity canaries: the obligation is expected NOT to be provable.
 	MustFail bool
+	// Explicit: the property tags were given for this very obligation or clause (not inherited from the function).
+	Explicit bool
 	// KnownOpen marks an obligation listed as an open finding in known_findings.txt.
 	KnownOpen bool
 	// Preamble overrides enc for lemma obligations (self-contained SMT text).
